@@ -87,12 +87,15 @@ pub struct Manual {
 
 impl Manual {
     pub fn new(bootstrap: &[SocketAddrV4], server_mode: bool, settings: dht::ServerSettings) -> Manual {
+        Manual::new_cfg(bootstrap, server_mode, settings, None)
+    }
+    pub fn new_cfg(bootstrap: &[SocketAddrV4], server_mode: bool, settings: dht::ServerSettings, public_ip: Option<Ipv4Addr>) -> Manual {
         let actor = Actor::new(Config {
             bootstrap: bootstrap.iter().map(|a| a.to_string()).collect(),
             port: Some(0),
             server_settings: settings,
             server_mode,
-            public_ip: None,
+            public_ip,
         })
         .expect("actor");
         let port = actor.info().local_addr().port();
